@@ -123,14 +123,34 @@ class P:
                 variants.append(("ws-one", rebuild(lambda gi, gap: (rnd_ws(True) if gi == target else gap))))
             for w in WS:
                 variants.append(("ws-" + repr(w), rebuild(lambda gi, gap: gap.replace(" ", w) if gap else gap)))
+            # whitespace REMOVED wherever a bracket, comma or semicolon keeps the two tokens apart (`x in [1, 2]` -> `x in[1,2]`);
+            # not before `(` after a word (that spells a call)
+            def tight(gi):
+                if gi <= 0 or gi >= len(toks): return True
+                t1, t2 = toks[gi - 1], toks[gi]
+                if not (t1[0] in ("delim", "comma", "semi") or t2[0] in ("delim", "comma", "semi")): return False
+                if t2[0] == "delim" and t2[1] == "28" and t1[0] in ("ref", "func", "bool", "num", "str"): return False
+                return True
+            if not juxt:
+                variants.append(("ws-removed", rebuild(lambda gi, gap: "" if tight(gi) else gap)))
             # parenthesis variants (char spans == byte spans only for ASCII programs: restrict)
             known = []
             if spans and s.isascii():
+                ends = {t[3]: t for t in toks}
                 for (a, e, kind) in (spans if len(spans) <= 8 else rng.sample(spans, 4)):
                     k = rng.choice([1, 2, 5])
                     v = s[:a] + "(" * k + s[a:e] + ")" * k + s[e:]
                     d19 = juxt and a in stmt_starts[1:]
                     variants.append(("paren-d19" if d19 else "paren", v))
+                    # ... and the same with no blank left around the added parentheses: after an operator (a word operator
+                    # too: `x in([1, 2])`, `not(a)`) they still enclose an operand, they do not spell a call
+                    a0 = a
+                    while a0 > 0 and s[a0 - 1] == " ": a0 -= 1
+                    prev = ends.get(a0)
+                    if not juxt and a0 < a and prev is not None and prev[0] in ("op", "delim", "comma", "semi"):
+                        e1 = e
+                        while e1 < len(s) and s[e1] == " ": e1 += 1
+                        variants.append(("paren-tight", s[:a0] + "(" * k + s[a:e] + ")" * k + s[e1:]))
             line = "PARSE:%s " % hx(s) + " ".join("PARSE:" + hx(v) for _, v in variants)
             items.append((line, (s, variants)))
         return flow.mk_cases("layout", items)
